@@ -743,7 +743,7 @@ func execute(t *testing.T, op opSpec, v variant, kind faultKind, k int) (fs []fi
 func variants(tier string, seed uint64) []variant {
 	vs := []variant{{NIn: 2, Fee: 100, Extra: true, Seed: 1}}
 	if tier == "thorough" {
-		for i := uint64(0); i < 11; i++ {
+		for i := uint64(0); i < 47; i++ {
 			s := seed*131 + i
 			vs = append(vs, variant{NIn: 1 + int(s%3), Fee: []uint{0, 100, 1000}[(s/3)%3], Extra: (s/9)%2 == 0, Seed: 10 + i})
 		}
